@@ -1,6 +1,7 @@
 (* C20 - Parsing is total: every input yields a result, never a panic on the "can't fail" unwraps;
    failure is always reported through the error list. *)
 From Chum Require Import Total Refine Corollaries.
+From Coq Require Import ZArith Lia.
 
 (* For every grammar, context, input, error type (zero-sized included), mode, start state and fuel:
    a failing (sub-)parser always leaves a pending error, and therefore neither the recovery
@@ -47,6 +48,14 @@ Theorem C20_answer_independent_of_fuel_err :
 Proof. exact machine_fuel_independent_err. Qed.
 
 (* non-vacuity: the zero-sized error type, a failing labelled parser under recover_with and map_err *)
+(* the binding powers the Pratt algorithm compares (pratt.rs Associativity::left_power / right_power, prefix 2*bp, postfix
+   2*bp+1) are computed from a u16 in u32: for every u16 they fit, so the model's unbounded arithmetic is the code's (a
+   computation in u16 would overflow from 32768 on; the correspondence run uses powers up to 65535) *)
+Theorem C20_binding_power_arithmetic_fits_u32 :
+  forall r bp, (Z.of_nat bp < 2 ^ 16)%Z ->
+    (Z.of_nat (lpow r bp) < 2 ^ 32 /\ Z.of_nat (rpow r bp) < 2 ^ 32 /\ Z.of_nat (2 * bp + 1) < 2 ^ 32)%Z.
+Proof. intros r bp H. unfold lpow, rpow. destruct r; lia. Qed.
+
 Example C20_example :
   let toks := [98]%N in
   let g := RecoverVia (Labelled 1 false (MapErr 2 (Custom [97%N] 3))) (Just [98%N]) in
@@ -67,3 +76,4 @@ Print Assumptions C20_top_level_reports_failure.
 Print Assumptions C20_normal_results_are_specified.
 Print Assumptions C20_answer_independent_of_fuel_ok.
 Print Assumptions C20_answer_independent_of_fuel_err.
+Print Assumptions C20_binding_power_arithmetic_fits_u32.
